@@ -129,6 +129,11 @@ type adapter struct {
 
 	encoding Encoding
 
+	// answered is set once the final (non-1xx) response HEADERS were seen; foreign indicates that
+	// they announced something other than gRPC. Only used in the server-to-client direction.
+	answered bool
+	foreign  bool
+
 	// State for the data interpreter.
 	buffer     bytes.Buffer
 	state      dataState
@@ -169,6 +174,23 @@ func (a *adapter) Header(
 			}
 		}
 	}
+	if a.dir == h2.ServerToClient && !a.answered {
+		// A gRPC request is not always answered in gRPC: a gateway on the way may reply with an HTML
+		// or JSON error. The body of such a response has no length prefixes to parse.
+		status, contentType := "", ""
+		for _, h := range headers {
+			switch h.Name {
+			case ":status":
+				status = h.Value
+			case "content-type":
+				contentType = h.Value
+			}
+		}
+		if status != "" && !strings.HasPrefix(status, "1") {
+			a.answered = true
+			a.foreign = !isGRPCContentType(contentType)
+		}
+	}
 	return a.processor.Header(headers, streamEnded, priority)
 }
 
@@ -180,7 +202,7 @@ func isGRPCContentType(v string) bool {
 }
 
 func (a *adapter) Data(data []byte, streamEnded bool) error {
-	if !a.isEnabled() {
+	if !a.isEnabled() || a.foreign {
 		return a.sink.Data(data, streamEnded)
 	}
 
